@@ -456,7 +456,8 @@ class BaseInput:
 
         # If file is already a DataFrame
         if isinstance(file, pd.DataFrame):
-            self._dataframe = file.astype(str)
+            # Rows are addressed by position everywhere below; a frame that was filtered or sorted keeps its labels.
+            self._dataframe = file.astype(str).reset_index(drop=True)
             self._has_column_names = self._dataframe_has_names(self._dataframe)
             return
 
